@@ -321,6 +321,12 @@ func TestVerifC15(t *testing.T) {
 	var evals, nontrivial int64
 	perTransport := map[string]int64{}
 	bypass := metadata.Pairs(common.RequestTranslationHeaderName, "false")
+	// every header the proxy gives a meaning to is ordinary metadata the remote caller controls
+	intra := metadata.Pairs(common.IntraProxyHeaderKey, common.IntraProxyHeaderValue, common.IntraProxyOriginProxyIDHeader, "peer-proxy", common.IntraProxyHopCountHeader, "1")
+	headerVariants := []struct {
+		name string
+		md   metadata.MD
+	}{{"no header", nil}, {"s2s-request-translation=false", bypass}, {"x-s2s-intra-proxy=1", intra}, {"s2s-request-translation=false + x-s2s-intra-proxy=1", metadata.Join(bypass, intra)}}
 	for _, transport := range transports {
 		for _, f := range fams {
 			if transport != "tcp" && !vrt.Thorough() && vrt.ReplayPath() == "" {
@@ -340,11 +346,8 @@ func TestVerifC15(t *testing.T) {
 				allowed[m] = true
 			}
 			for _, mi := range vfAllMethods() {
-				for _, md := range []metadata.MD{nil, bypass} {
-					hdr := "no header"
-					if md != nil {
-						hdr = "s2s-request-translation=false"
-					}
+				for _, hv := range headerVariants {
+					md, hdr := hv.md, hv.name
 					replay := map[string]any{"family": f.name, "method": mi.Full, "header": hdr, "transport": transport}
 					hdr = transport + ", " + hdr
 					// remote side -> inbound server (policy applies)
@@ -407,7 +410,7 @@ func TestVerifC15(t *testing.T) {
 	res.Set("evaluations", evals)
 	res.Set("distinct_nontrivial", nontrivial)
 	res.Set("allow_list_families", int64(len(fams)))
-	res.Set("rule", "real ClusterConnection (remote side on TCP, mux-server and mux-client transports over loopback; for the mux transports the harness owns the peer end of the yamux session) with an ACL policy: allow-list families {empty, full, non-existent names only, singleton and complement-of-singleton for the selected admin methods (all of them in thorough)} x every method of AdminService and WorkflowService (streaming method opened as a stream) x {no header, s2s-request-translation=false}; plus every unary admin method through the outbound server; non-trivial = cases that must be refused")
+	res.Set("rule", "real ClusterConnection (remote side on TCP, mux-server and mux-client transports over loopback; for the mux transports the harness owns the peer end of the yamux session) with an ACL policy: allow-list families {empty, full, non-existent names only, singleton and complement-of-singleton for the selected admin methods (all of them in thorough)} x every method of AdminService and WorkflowService (streaming method opened as a stream) x {no header, s2s-request-translation=false, x-s2s-intra-proxy=1, both}; plus every unary admin method through the outbound server; non-trivial = cases that must be refused")
 	res.Set("exhaustive", true)
 	res.Set("transports", "tcp, mux-server, mux-client (quick: the mux transports get the base families and the singleton/complement lists of DescribeCluster and StreamWorkflowReplicationMessages; thorough: every family on every transport)")
 	res.Sample(map[string]any{"family": fams[len(fams)-1].name, "method": "/temporal.server.api.adminservice.v1.AdminService/DescribeCluster"})
